@@ -1835,6 +1835,331 @@ def _role_verdict(fi, field, v):
     return 'unknown'
 
 
+# ---------------------------------------------------------------------------
+# D4: the fitted attributes are functions of the CURRENT result_
+
+_PROPS = {'labels_': 'assignments', 'distances_': 'distances',
+          'center_indices_': 'center_indices', 'centers_': 'centers'}
+_MEMO_DECOS = {'cached_property', 'lru_cache', 'cache', 'memoize', 'memoized', 'cached', 'memo'}
+_RES = 'result_'
+
+
+def _recv_attr_read(e, me):
+    """Attribute name A when expression `e` IS a read of attribute A of the
+    receiver: `me.A`, `getattr(me, 'A'[, default])`; None otherwise."""
+    if isinstance(e, ast.Attribute) and isinstance(e.value, ast.Name) and e.value.id == me:
+        return e.attr
+    if isinstance(e, ast.Call) and call_name(e) == 'getattr' and len(e.args) in (2, 3) and not e.keywords \
+            and isinstance(e.args[0], ast.Name) and e.args[0].id == me and isinstance(const_value(e.args[1]), str):
+        return const_value(e.args[1])
+    return None
+
+
+def _recv_attrs_in(e, me):
+    """Every attribute of the receiver an expression reads or tests
+    (`me.A`, getattr/hasattr(me, 'A'), `'A' in me.__dict__` -> A and __dict__)."""
+    out = set()
+    for x in ast.walk(e):
+        a = _recv_attr_read(x, me)
+        if a is not None:
+            out.add(a)
+        if isinstance(x, ast.Call) and call_name(x) in ('hasattr', 'getattr', 'vars') and x.args and \
+                isinstance(x.args[0], ast.Name) and x.args[0].id == me:
+            if len(x.args) > 1 and isinstance(const_value(x.args[1]), str):
+                out.add(const_value(x.args[1]))
+            else:
+                out.add('__dict__')
+    if '__dict__' in out:
+        out |= {x.value for x in ast.walk(e) if isinstance(x, ast.Constant) and isinstance(x.value, str)}
+    return out
+
+
+def _recv_attr_writes(fn, me, attr):
+    """[(statement, kind, value)] for every statement of `fn` that may change
+    attribute `attr` of the receiver `me`.  kind: 'store' (value = the stored
+    expression) | 'delete' | 'unknown' (an update the rule cannot read:
+    augmented store, `me.__dict__.update(..)`, setattr with a computed name)."""
+    out = []
+
+    def targets(t):
+        if isinstance(t, (ast.Tuple, ast.List)):
+            for x in t.elts:
+                yield from targets(x)
+        elif isinstance(t, ast.Starred):
+            yield from targets(t.value)
+        else:
+            yield t
+
+    def is_attr(t):
+        return isinstance(t, ast.Attribute) and isinstance(t.value, ast.Name) and t.value.id == me and t.attr == attr
+
+    def is_dict_item(t):
+        return isinstance(t, ast.Subscript) and (
+            (isinstance(t.value, ast.Attribute) and t.value.attr == '__dict__' and isinstance(t.value.value, ast.Name)
+             and t.value.value.id == me) or
+            (isinstance(t.value, ast.Call) and call_name(t.value) == 'vars' and len(t.value.args) == 1
+             and isinstance(t.value.args[0], ast.Name) and t.value.args[0].id == me))
+
+    for s in walk_local(fn):
+        if isinstance(s, ast.Assign):
+            for t0 in s.targets:
+                plain = not isinstance(t0, (ast.Tuple, ast.List))
+                for t in targets(t0):
+                    if is_attr(t) or (is_dict_item(t) and const_value(t.slice) == attr):
+                        out.append((s, 'store' if plain else 'unknown', s.value if plain else None))
+                    elif is_dict_item(t) and not isinstance(const_value(t.slice), str):
+                        out.append((s, 'unknown', None))
+        elif isinstance(s, ast.AnnAssign) and s.value is not None and is_attr(s.target):
+            out.append((s, 'store', s.value))
+        elif isinstance(s, ast.AugAssign) and is_attr(s.target):
+            out.append((s, 'unknown', None))
+        elif isinstance(s, ast.Delete):
+            for t in s.targets:
+                if is_attr(t) or (is_dict_item(t) and const_value(t.slice) == attr):
+                    out.append((s, 'delete', None))
+        elif isinstance(s, (ast.With, ast.For)):
+            hdr = [i.optional_vars for i in s.items if i.optional_vars is not None] if isinstance(s, ast.With) else [s.target]
+            for t0 in hdr:
+                if any(is_attr(t) for t in targets(t0)):
+                    out.append((s, 'unknown', None))
+    for c in calls_in(fn):
+        cn = call_name(c) or ''
+        first_me = bool(c.args) and isinstance(c.args[0], ast.Name) and c.args[0].id == me
+        st = None
+        if cn in ('setattr', 'object.__setattr__') and first_me and len(c.args) == 3:
+            nm = const_value(c.args[1])
+            if nm == attr:
+                st = ('store', c.args[2])
+            elif not isinstance(nm, str):
+                st = ('unknown', None)
+        elif cn in ('delattr', 'object.__delattr__') and first_me and len(c.args) == 2:
+            nm = const_value(c.args[1])
+            if nm == attr:
+                st = ('delete', None)
+            elif not isinstance(nm, str):
+                st = ('unknown', None)
+        elif isinstance(c.func, ast.Attribute) and isinstance(c.func.value, ast.Attribute) and \
+                c.func.value.attr == '__dict__' and isinstance(c.func.value.value, ast.Name) and \
+                c.func.value.value.id == me:
+            if c.func.attr in ('pop', 'popitem', 'clear', 'update', 'setdefault', '__setitem__', '__delitem__'):
+                key = const_value(c.args[0]) if c.args else None
+                if c.func.attr in ('pop', '__delitem__') and key == attr:
+                    st = ('delete', None)
+                elif c.func.attr == 'clear':
+                    st = ('delete', None)
+                elif c.func.attr in ('pop', '__delitem__', 'setdefault', '__setitem__') and isinstance(key, str) and key != attr:
+                    st = None
+                else:
+                    st = ('unknown', None)
+        if st is not None:
+            stmt = c
+            out.append((stmt, st[0], st[1]))
+    return out
+
+
+def _refit_sites(ck, owner_cls):
+    """[(module, qualname, fn, receiver, [statements that store receiver.result_])]
+    for the methods of the estimator classes (classes that list `owner_cls`
+    among their bases, and `owner_cls` itself) that store a new result_."""
+    out, opaque = [], []
+    for rel in (KC, KM, HY, CU):
+        mod = ck.repo.mod(rel)
+        for cq, cls in mod.classes.items():
+            if cq != owner_cls and not any(_last(u(b)) == owner_cls for b in cls.bases):
+                continue
+            for q, fn in mod.functions.items():
+                if not q.startswith(cq + '.') or '.' in q[len(cq) + 1:]:
+                    continue
+                if fn.name in ('__setattr__', '__getattr__', '__getattribute__', '__delattr__') or fn.name == _RES:
+                    opaque.append('%s::%s' % (rel, q))
+                ps = params(fn)
+                if not ps:
+                    continue
+                st = [s for s, k, v in _recv_attr_writes(fn, ps[0], _RES)]
+                if st:
+                    out.append((mod, q, fn, ps[0], st))
+    return out, opaque
+
+
+def _memo_invalidation(ck, fi_of, sites, attr, field):
+    """Is attribute `attr` of the estimator reset whenever a new result_ is
+    stored?  -> {'reset': [q], 'kept': [(mod, q, stmt)], 'unknown': [text]}"""
+    res = {'reset': [], 'kept': [], 'unknown': []}
+    for mod, q, fn, me, stores in sites:
+        fi = fi_of(mod, fn)
+        cfg = fi.cfg
+        ws = _recv_attr_writes(fn, me, attr)
+        resets, bad = [], False
+        for s, kind, v in ws:
+            st = s if isinstance(s, ast.stmt) else fi.stmt(s)
+            if kind == 'delete' or (kind == 'store' and isinstance(v, ast.Constant) and v.value is None):
+                resets.append(st)
+            elif kind == 'store' and v is not None and fi.xu(v) == '%s.%s.%s' % (me, _RES, field) and \
+                    any(cfg.dominates(r if isinstance(r, ast.stmt) else fi.stmt(r), st) for r in stores):
+                resets.append(st)
+            else:
+                bad = True
+        # calls on the receiver that the rule cannot see through may reset it too
+        helpers = [c for c in calls_in(fn) if isinstance(c.func, ast.Attribute) and isinstance(c.func.value, ast.Name)
+                   and c.func.value.id == me and not c.func.attr.startswith('__')]
+        if bad:
+            res['unknown'].append('%s writes `%s.%s` in a way that is not recognised as a reset' % (q, me, attr))
+            continue
+        raises = [x for x in walk_local(fn) if isinstance(x, ast.Raise)]
+        kept = None
+        for r in stores:
+            rs = r if isinstance(r, ast.stmt) else fi.stmt(r)
+            if rs in resets:
+                continue
+            if cfg.reachable('ENTRY', rs, avoiding=resets) and cfg.reachable(rs, 'EXIT', avoiding=resets + raises):
+                kept = rs
+        if kept is None:
+            res['reset'].append(q)
+        elif helpers and not ws:
+            res['unknown'].append('%s stores %s.%s and calls %s, which may or may not reset `%s`' % (
+                q, me, _RES, u(helpers[0])[:50], attr))
+        else:
+            res['kept'].append((mod, q, kept))
+    return res
+
+
+def _field_verdict(fi, e, me, field):
+    """classify `e` against `me.result_.<field>`: another field of the result is a
+    different function of the same operand (near), anything else is not recognised."""
+    x = fi.expand(e)
+    v = classify(x, ['%s.%s.%s' % (me, _RES, field)], scope={me})
+    if v[0] == 'match':
+        return v
+    if fi.xu(e).startswith('%s.%s.' % (me, _RES)):
+        return ('near', v[1], v[2])
+    return ('far', v[1], v[2])
+
+
+def _d4_props(ck, rule, modu):
+    """Estimator attributes labels_/distances_/center_indices_/centers_: on
+    every returning path the value is field <f> of the receiver's CURRENT
+    result_.  A value carried over from an earlier call in another attribute
+    of the receiver (memo filled on first read, cached_property) is only
+    current if every method that stores a new result_ resets it."""
+    OWNER = 'MolecularClusterMixin'
+    prule, frule = rule + '.props', rule + '.props.fresh'
+
+    def fi_of(mod, fn):
+        return finfo(mod, fn)
+    sites = opaque = None
+    for prop, field in _PROPS.items():
+        q = '%s.%s' % (OWNER, prop)
+        fn = modu.functions.get(q)
+        if fn is None:
+            ck.missing(rule, 'property %s missing' % prop)
+            continue
+        ck.analysed(modu, fn)
+        ps = params(fn)
+        if len(ps) != 1:
+            ck.missing(prule, 'property %s: receiver parameter not found' % prop)
+            continue
+        me = ps[0]
+        fi = finfo(modu, fn)
+        cfg = fi.cfg
+        decos = [_last(call_name(d) if isinstance(d, ast.Call) else u(d)) for d in fn.decorator_list]
+        rets = [r for r in returns_of(fn) if r.value is not None]
+        if not rets or len(rets) != len(returns_of(fn)):
+            ck.missing(prule, 'property %s: `return <value>` not found on every path' % prop)
+            continue
+        if sites is None:
+            sites, opaque = _refit_sites(ck, OWNER)
+
+        def carried(attr, node, construct, filled_here):
+            """Decide a value that survives in `me.attr` from an earlier call."""
+            if opaque:
+                ck.missing(frule, '%s: attribute access of the estimator is customised (%s)' % (q, opaque[0]))
+                return
+            if not sites:
+                ck.missing(frule, '%s: no method that stores `%s` found' % (q, _RES))
+                return
+            inv = _memo_invalidation(ck, fi_of, sites, attr, field)
+            if inv['unknown']:
+                ck.missing(frule, '%s: %s' % (q, inv['unknown'][0]))
+            elif inv['kept']:
+                m_, q_, st_ = inv['kept'][0]
+                ck.bad(frule, modu, node, q, construct,
+                       '%s hands out a value kept in `%s.%s` from an earlier call (%s) instead of field `%s` of the current '
+                       '`%s.%s`; %s stores a new %s without resetting `%s` (%s): after a second fit on the same '
+                       'estimator %s still describes the FIRST fit while the other fitted attributes describe the new '
+                       'one (centres are no longer the frames at center_indices_, labels may exceed the number of '
+                       'centres)' % (prop, me, attr, filled_here, field, me, _RES,
+                                     ', '.join(sorted(x[1] for x in inv['kept'])), _RES, attr, m_.loc(st_), prop))
+            else:
+                ck.ok(frule, modu, node, construct, 'kept value is reset by every method that stores %s: %s' % (
+                    _RES, ', '.join(sorted(inv['reset']))))
+
+        memo_decos = [d for d in decos if d in _MEMO_DECOS]
+        if memo_decos:
+            if memo_decos == ['cached_property'] and decos == ['cached_property']:
+                carried(prop, fn, '@%s %s' % (u(fn.decorator_list[0])[:40], q),
+                        'functools.cached_property stores the first value in the instance dictionary')
+            elif not any(_last(call_name(c)) == 'cache_clear' for s in sites for c in calls_in(s[2])):
+                ck.bad(frule, modu, fn, q, '@%s %s' % (memo_decos[0], q),
+                       'the accessor is memoised per estimator object (%s) and no method that stores a new %s clears '
+                       'the cache: after a second fit %s still describes the first fit' % (memo_decos[0], _RES, prop))
+            else:
+                ck.missing(frule, '%s: memoising decorator %s with cache_clear somewhere: not decided' % (q, memo_decos[0]))
+            if decos != ['cached_property'] and 'property' not in decos:
+                continue
+        elif decos != ['property']:
+            ck.missing(prule, 'property %s: decorators %s not recognised (expected @property)' % (prop, decos))
+            continue
+
+        tests = [x.test for x in ast.walk(fn) if isinstance(x, (ast.If, ast.IfExp, ast.While, ast.Assert))]
+        for r in rets:
+            construct = u(r)
+            x = fi.expand(r.value)
+            hidden = _recv_attrs_in(x, me) - {_RES}
+            if not hidden:
+                ck.decide(_field_verdict(fi, r.value, me, field), prule, modu, fn, q, construct,
+                          '%s -> result_.%s' % (prop, field),
+                          'estimator attribute %s must expose result_.%s' % (prop, field))
+                continue
+            attr = _recv_attr_read(x, me)
+            if attr is None or len(hidden) != 1 or attr == '__dict__':
+                ck.missing(prule, 'property %s: returned value combines other attributes of the estimator (%s): %s' % (
+                    prop, ', '.join(sorted(hidden)), construct[:80]))
+                continue
+            ws = _recv_attr_writes(fn, me, attr)
+            wst = [s if isinstance(s, ast.stmt) else fi.stmt(s) for s, _, _ in ws]
+            if any(k != 'store' for _, k, _ in ws):
+                ck.missing(prule, 'property %s: `%s.%s` is updated in an unrecognised way' % (prop, me, attr))
+                continue
+            # content of what the accessor itself stores there
+            fills = [(s, v) for (s, k, v), st in zip(ws, wst) if cfg.reachable(st, r)]
+            okfill = True
+            for s, v in fills:
+                fv = _field_verdict(fi, v, me, field)
+                okfill = okfill and fv[0] == 'match'
+                ck.decide(fv, prule, modu, s, q, '%s ; %s' % (u(s)[:100], construct),
+                          '%s -> result_.%s (through `%s.%s`)' % (prop, field, me, attr),
+                          'estimator attribute %s must expose result_.%s' % (prop, field))
+            if not cfg.reachable('ENTRY', r, avoiding=wst):
+                continue        # stored in this very call on every path: a temporary
+            if not okfill:
+                continue
+            # a path returns `me.attr` as an earlier call (or another method) left it
+            keyed = set().union(*[_recv_attrs_in(t, me) for t in tests]) if tests else set()
+            in_try = _enclosing(modu, r, (ast.Try,), stop=fn) is not None
+            fit_written = {a for a in keyed - {attr} for s in sites if _recv_attr_writes(s[2], s[3], a)}
+            if fit_written:
+                ck.missing(frule, '%s: the path that returns the kept `%s.%s` is guarded by `%s.%s`, which the fitting '
+                           'methods write: validity of the kept value not decided' % (
+                               q, me, attr, me, sorted(fit_written)[0]))
+                continue
+            if fills and not (attr in keyed or in_try):
+                ck.missing(frule, '%s: the condition under which the kept `%s.%s` is returned is not recognised' % (q, me, attr))
+                continue
+            carried(attr, r, construct if not fills else '%s ; %s' % (u(fills[0][0])[:100], construct),
+                    'filled on first read by `%s`' % u(fills[0][0])[:80] if fills else
+                    'not stored by the accessor on this path')
+
+
 def d4_result_fields(ck):
     rule = 'C01.D4.result'
     n = 0
@@ -1892,27 +2217,7 @@ def d4_result_fields(ck):
         ck.missing(rule, 'no ClusterResult(...) construction found in %s::%s' % (rel, q))
     ck.floor(rule, n, len(producers), 'ClusterResult constructions')
     # estimator properties
-    want = {'labels_': 'assignments', 'distances_': 'distances',
-            'center_indices_': 'center_indices', 'centers_': 'centers'}
-    for prop, field in want.items():
-        fn = modu.functions.get('MolecularClusterMixin.' + prop)
-        if fn is None:
-            ck.missing(rule, 'property %s missing' % prop)
-            continue
-        fi = finfo(modu, fn)
-        r = returns_of(fn)
-        if len(r) != 1 or r[0].value is None:
-            ck.missing(rule + '.props', 'property %s: single return not found' % prop)
-            continue
-        txt = fi.xu(r[0].value)
-        v = classify(fi.expand(r[0].value), ['self.result_.%s' % field], scope={'self'})
-        if v[0] != 'match' and not txt.startswith('self.result_.'):
-            v = ('far', v[1], v[2])
-        elif v[0] != 'match':
-            v = ('near', v[1], v[2])
-        ck.decide(v, rule + '.props', modu, fn, 'MolecularClusterMixin.' + prop,
-                  u(r[0]), '%s -> result_.%s' % (prop, field),
-                  'estimator attribute %s must expose result_.%s' % (prop, field))
+    _d4_props(ck, rule, modu)
     # unpacking order of assign_to_nearest_center at call sites
     n2 = 0
     for rel in (KC, KM, HY, CU):
